@@ -35,7 +35,8 @@ Begin == /\ Rec[l].ev = "begin"
 
 Start == /\ Rec[l].ev = "Start"
          /\ kind' = Rec[l].kind /\ comp' = Rec[l].comp /\ av' = Rec[l].v0
-         /\ nd' = Rec[l].nodes /\ simi' = Rec[l].simi /\ log' = <<>> /\ sched' = << <<"New", Rec[l].v0>> >>
+         /\ nd' = Rec[l].nodes /\ simi' = Rec[l].simi /\ log' = <<>>
+         /\ sched' = << <<"New", Rec[l].v0, Rec[l].u0, Rec[l].c0>> >>
          /\ Report(Names(Checks))
          /\ stats' = [stats EXCEPT !.runs = @ + 1, !.nodes = @ + Len(nd'),
                         !.shape = @ + (IF Shape(nd') = Shape(Build(kind', comp', av')) THEN 0 ELSE 1),
@@ -47,14 +48,15 @@ Op == /\ Rec[l].ev = "Op"
              isWalk == r.name \in {"Walk", "WalkErr"}
              \* steps executed by a walk: known from the trace handed to it (trace kinds), else
              \* the advance of the simulation's own counter (path-driven walks)
-             expectOk == r.name \in {"Set", "Init", "Step", "Walk"}
+             expectOk == r.name \in {"Set", "Relist", "Init", "Step", "Walk"}
              n == IF r.name = "Walk" /\ r.ok /\ kind \notin {"slts", "timed"} THEN r.arg
                   ELSE IF r.name = "WalkErr" /\ ~r.ok THEN r.arg - 1 ELSE r.adv
              pred == CASE r.name = "Set" -> DoSet(nd, r.arg)
+                       [] r.name = "Relist" -> DoRelist(nd, U0, r.arg)
                        [] r.name = "Init" -> DoSave(nd)
                        [] r.name \in {"Step", "Err"} -> IF r.ok THEN DoStepOk(nd) ELSE DoStepErr(nd)
                        [] OTHER -> nd
-         IN /\ av' = IF r.name = "Set" THEN r.arg ELSE av
+         IN /\ av' = IF r.name \in {"Set", "Relist"} THEN r.arg ELSE av
             /\ log' = CASE r.name = "Init" /\ r.ok -> Append(log, [op |-> "Init", i |-> AI(log), v |-> av])
                         [] r.name \in {"Step", "Err"} /\ r.ok -> Append(log, StepEntry(AI(log)))
                         [] isWalk -> log \o <<[op |-> "Init", i |-> AI(log), v |-> av]>>
